@@ -24,7 +24,7 @@ class Cfg:
                  group=True, order=True, limit=True, limit_needs_total_order=True, distinct=True, division=True,
                  concat=True, case=True, cast=True, star=True, max_tables=3, qualifier_spelling=None,
                  exists=True, in_subselect=True, expr_depth=2, column_aliases=True, nulls_order=True,
-                 scalar_functions=True, cross_place_subselect=True):
+                 scalar_functions=True, cross_place_subselect=True, shadow_aliases=(), qualified_columns=False):
         self.places = places or {}            # table -> qualifier (integration) or None
         self.tables = tables or sorted(SCHEMA)
         self.always_alias = always_alias
@@ -55,6 +55,8 @@ class Cfg:
         self.nulls_order = nulls_order
         self.scalar_functions = scalar_functions
         self.cross_place_subselect = cross_place_subselect
+        self.shadow_aliases = list(shadow_aliases)   # names sometimes used as table alias (e.g. the integration name)
+        self.qualified_columns = qualified_columns   # un-aliased tables: refer to columns as int1.t1.a sometimes
 
 
 class Gen:
@@ -78,6 +80,13 @@ class Gen:
 
     def new_alias(self, prefix='x'):
         self.n_alias += 1
+        if prefix == 'x' and self.cfg.shadow_aliases and self.chance(1, 30):
+            cand = [a for a in self.cfg.shadow_aliases if a not in getattr(self, '_used_shadow', set())]
+            if cand:
+                a = self.pick(cand)
+                self._used_shadow = getattr(self, '_used_shadow', set()) | {a}
+                self.tags.add('alias:shadows-qualifier')
+                return a
         return f'{prefix}{self.n_alias}'
 
     def table_ref(self, t):
@@ -275,7 +284,11 @@ class Gen:
                 need_alias = cfg.always_alias or n > 1 or self.chance(1, 2)
                 al = self.new_alias('x') if need_alias else None
                 txt = self.table_ref(t) + (f' AS {al}' if al and self.chance(3, 4) else (f' {al}' if al else ''))
-                scope_item = (al or t, SCHEMA[t])
+                ref = al or t
+                if not al and cfg.qualified_columns and cfg.places.get(t) and self.chance(1, 2):
+                    ref = f'{cfg.places[t]}.{t}'
+                    self.tags.add('col:3-part')
+                scope_item = (ref, SCHEMA[t])
             elif kind == 'cte':
                 name = self.pick(sorted(self.cte_names))
                 al = self.new_alias('x')
